@@ -4,6 +4,7 @@
 -/
 import SqProps.C08
 import SqLemmas.RatSpec
+import SqLemmas.PowSpec
 namespace SqProps.C08
 open Sq Sq.Dec
 
@@ -71,6 +72,17 @@ theorem round_to_integer_is_nearest (a : Dec) : |((toIntRound a .halfEven : Int)
 /-- round(2.675, 2) = 2.68 and round(2.665, 2) = 2.66 (ties to even; binary floats give 2.67 / 2.67), round(2.5) = 2 -/
 example : quantize ⟨false, 2675, -3⟩ (-2) = .ok ⟨false, 268, -2⟩ ∧ quantize ⟨false, 2665, -3⟩ (-2) = .ok ⟨false, 266, -2⟩ ∧
     toIntRound ⟨false, 25, -1⟩ .halfEven = 2 := by decide +kernel
+
+/-- **`**` in ℚ** (the part of `**` the model speaks about: an integral exponent 0..200 written plainly and an exact power of
+    at most 28 digits; the rest is `unmodelled` and decided by correspondence with CPython): the result is within half a unit
+    of its last place of the real power -/
+theorem power_is_correctly_rounded (x y r : Dec) (c : Bool) (h : decPow x y = .ok (.dec r c)) :
+    ∃ N : Nat, y.toRat = (N : ℚ) ∧ |r.toRat - x.toRat ^ N| ≤ (1 / 2) * 10 ^ r.exp :=
+  decPow_half_ulp x y r c h
+
+/-- 1.1 ** 2 = 1.21, (-0.5) ** 3 = -0.125 -/
+example : decPow ⟨false, 11, -1⟩ ⟨false, 2, 0⟩ = .ok (.dec ⟨false, 121, -2⟩ false) ∧
+    decPow ⟨true, 5, -1⟩ ⟨false, 3, 0⟩ = .ok (.dec ⟨true, 125, -3⟩ false) := ⟨by rfl, by rfl⟩
 
 /-- 0.1 + 0.2 denotes exactly 3/10 (the float sum does not) -/
 example : ∃ r, Dec.add ⟨false, 1, -1⟩ ⟨false, 2, -1⟩ = .ok r ∧ r.toRat = 3 / 10 := by
